@@ -57,3 +57,44 @@ Theorem C15_registration_before_recheck :
                         ([false; false], [PollShape.PAttempt; PollShape.PRegister; PollShape.PAttempt], PollShape.PPending)].
 Proof. split; reflexivity. Qed.
 Print Assumptions C15_registration_before_recheck.
+
+(** ** the re-check after registration, on the branch no sequential history reaches: ANOTHER stage acts during [register_waker]
+       ([Async.poll_inj]: attempt; registration; one async step [d] of another stage; second attempt - the harness performs [d] inside the
+       polling task's [Waker::clone]).  The source's [poll] (gen/PollGen.v) run with the injected step at its [PRegister] event is
+       [poll_inj]; and whatever [d] made possible is seen by the second attempt: the poll answers with the operation's result - the
+       wake-up that would have announced it cannot be lost, because it is not needed. *)
+Require MRB.Proofs.AsyncInj.
+Theorem C15_poll_with_injected_step_is_source :
+  PollGen.poll_clean = true /\
+  forall (k : stage) (o : op) (d : aop) (s : astate), PollShape.poll_inj_by_shape PollGen.poll_shape k o d s = Some (poll_inj k o d s).
+Proof. split; [reflexivity | exact AsyncInj.poll_inj_is_source_shape]. Qed.
+Print Assumptions C15_poll_with_injected_step_is_source.
+
+Theorem C15_no_lost_wakeup_during_registration :
+  forall (s : astate) (k : stage) (o : op) (d : aop),
+    refused (fst (snd (Seq.step (base s) o))) = true ->                                   (* the first attempt is refused *)
+    let s1 := register k (set_base (fst (Seq.step (base s) o)) s) in                      (* the polling task is registered ... *)
+    let si := fst (astep s1 d) in                                                         (* ... the other stage acts ... *)
+    tget k (wk s1) = Some (task s) /\
+    (refused (fst (snd (Seq.step (base si) o))) = false ->                                (* ... and made the operation possible: *)
+     fst (snd (fst (poll_inj k o d s))) = fst (snd (Seq.step (base si) o)) /\             (* the poll answers with its result, *)
+     fst (snd (fst (poll_inj k o d s))) <> OPending).                                     (* never Pending *)
+Proof.
+  intros s k o d H. cbv zeta. split; [exact (AsyncInj.inj_registered_before s k o)|].
+  intros H2. destruct (AsyncInj.inj_no_lost_wakeup s k o d H H2) as [E N]. split; [rewrite E; reflexivity | exact N].
+Qed.
+Print Assumptions C15_no_lost_wakeup_during_registration.
+
+(** the hypotheses are met: a consumer polls [pop] on an empty buffer, the producer pushes 7 while the consumer's waker is being
+    registered - the poll answers [7], and the consumer task is the registered one *)
+Example C15_injected_push_is_seen :
+  exists m : mstate, init c15_cfg = Some m /\
+    let s := a_init_state m in
+    refused (fst (snd (Seq.step (base s) Pop))) = true /\
+    snd (poll_inj C Pop (APoll (Push 7%N)) s) = Some OOk /\
+    fst (snd (fst (poll_inj C Pop (APoll (Push 7%N)) s))) = OVal 7%N /\
+    tget C (wk (fst (fst (poll_inj C Pop (APoll (Push 7%N)) s)))) = Some 0.
+Proof.
+  destruct (init c15_cfg) as [m|] eqn:E; [|vm_compute in E; discriminate].
+  exists m. vm_compute in E. inversion E; subst m. split; [reflexivity|]. vm_compute. repeat split; reflexivity.
+Qed.
